@@ -642,7 +642,7 @@ def _post_gate_replace(kind):
                 B = rb.matrix  # the innermost factory on the new parameters, taken as given
                 R = r.matrix
             except Exception as e:
-                if any(NT.is_exotic(x) for x in new) and (_is_k5(e) or isinstance(e, TypeError)):
+                if any(NT.is_exotic(x) for x in new) and (_is_k5(e) or isinstance(e, (TypeError, OverflowError))):
                     # the matrix factory itself cannot evaluate a number of this type (numpy scalars: environment;
                     # Decimal does not mix with float): nothing to compare the wrapper chain on
                     mon.note("replace_params: matrix factory cannot evaluate a parameter of an unusual numeric type")
